@@ -279,6 +279,11 @@ def DState.slotDropped (s : DState) : Bool :=
     | some c => !c.readerAlive
     | none => true
 
+/-- epilogue of `poll`: a payload dropped after this poll found it paused leaves buffered input
+nobody would be woken for (the buffer-cap half of the condition is outside the modelled input class) -/
+def DState.drainDropped (s : DState) : Bool :=
+  s.slotDropped && !s.readBuf.isEmpty && !s.flags.readDisc && s.messages.length < Consts.h1MaxPipelined
+
 /-- `should_close_for_unread_payload` (l.1474) -/
 def DState.closeForUnread (s : DState) : Bool :=
   s.payload.isSome && !(s.slotDropped && s.drainable)
@@ -555,19 +560,19 @@ def step (cfg : Cfg) (s : DState) : Event → Option (DState × List Out)
                   flags := { s.flags with keepAlive := false, draining := true },
                   kaTimer := if s.kaTimer == .disabled then .disabled else .inactive }
     else none
-  -- l.1031 poll_head_timer: the timer is not cleared after it fired
+  -- poll_head_timer: 408, SHUTDOWN, and the timer is cleared (it has done its job)
   | .headTimerFired =>
     if s.mode == .idle && s.headTimer == .active then
       let (s1, o) := sendResponse cfg s none
         { status := 408, connType := none, chunked := true, headers := [] } (.sized 0) true
-      ok { s1 with flags := { s1.flags with shutdown := true } } o
+      ok { s1 with flags := { s1.flags with shutdown := true }, headTimer := Timer.inactive } o
     else none
   -- l.1055 poll_ka_timer
   | .kaTimerFired =>
     if s.mode == .idle && s.kaTimer == .active then
       if cfg.discTimeout then
-        ok { s with flags := { s.flags with shutdown := true }, shutdownTimer := .active }
-      else ok { s with flags := { s.flags with shutdown := true, writeDisc := true } }
+        ok { s with flags := { s.flags with shutdown := true }, kaTimer := Timer.inactive, shutdownTimer := .active }
+      else ok { s with flags := { s.flags with shutdown := true, writeDisc := true }, kaTimer := Timer.inactive }
     else none
   -- l.1098 poll_shutdown_timer
   | .shutdownTimerFired =>
@@ -579,7 +584,10 @@ def step (cfg : Cfg) (s : DState) : Event → Option (DState × List Out)
   | .enter =>
     if s.mode == .idle then
       if s.flags.linger then ok { s with mode := .linger }
-      else if s.flags.shutdown then ok { s with mode := .shutdown }
+      else if s.flags.shutdown then
+        -- the shutdown branch arms the disconnect timer on every path (`ensure_linger_timer`)
+        ok { s with mode := .shutdown,
+                    shutdownTimer := if !s.flags.writeDisc && cfg.discTimeout then Timer.active else s.shutdownTimer }
       else ok { s with mode := .normal }
     else none
   -- read_available (l.1159); also used by poll_linger
@@ -689,7 +697,7 @@ def step (cfg : Cfg) (s : DState) : Event → Option (DState × List Out)
     | none => none
   -- l.1366
   | .armKa =>
-    if s.mode == .normal && s.flags.keepAlive && s.flags.finished && cfg.kaTimeout then
+    if s.mode == .normal && s.flags.keepAlive && s.flags.finished && cfg.kaTimeout && s.kaTimer != .active then
       ok { s with kaTimer := .active }
     else none
   -- l.1407–1463
@@ -707,8 +715,8 @@ def step (cfg : Cfg) (s : DState) : Event → Option (DState × List Out)
             if f1.finished && !f1.keepAlive && s1.payload.isNone then
               ok { s1 with flags := { f1 with finished := false, shutdown := true }, mode := .idle } [.repoll]
             else if f1.shutdown then ok { s1 with mode := .idle } [.repoll]
-            else ok { s1 with mode := .idle } (if f1.linger || f1.shutdown then [.wake] else [])
-        else ok { s1 with mode := .idle } (if f1.linger || f1.shutdown then [.wake] else [])
+            else ok { s1 with mode := .idle } (if f1.linger || f1.shutdown || s1.drainDropped then [.wake] else [])
+        else ok { s1 with mode := .idle } (if f1.linger || f1.shutdown || s1.drainDropped then [.wake] else [])
     else none
   -- poll_flush (l.349)
   | .flushWrite k =>
